@@ -26,6 +26,14 @@ def repo_clean():
     return sh(["git", "-C", REPO, "status", "--porcelain"]).stdout.strip() == ""
 
 
+def outside(sid):
+    try:
+        m = json.load(open(os.path.join(SEEDED, sid, "meta.json")))
+    except Exception:
+        return ""
+    return m.get("outside_property") or m.get("outside_technique") or ""
+
+
 def main():
     ids = sys.argv[1:] or sorted(d for d in os.listdir(SEEDED) if os.path.isfile(os.path.join(SEEDED, d, "meta.json")))
     respath = os.path.join(SEEDED, "results.json")
@@ -59,7 +67,12 @@ def main():
         json.dump(results, open(respath, "w"), indent=1, sort_keys=True)      # after every change: a long run keeps what it has
     json.dump(results, open(respath, "w"), indent=1, sort_keys=True)
     with open(os.path.join(SEEDED, "RESULTS.md"), "w") as f:
-        f.write("# Seeded changes: which checks catch which\n\n| seeded change | breaks | needs, to manifest | check: outcome |\n|---|---|---|---|\n")
+        counted = [s for s in results if "runs" in results[s] and not outside(s)]
+        primary = [s for s in counted if results[s]["runs"].get(results[s]["property"], {}).get("exit") == 1]
+        f.write("# Seeded changes: which checks catch which\n\n%d changes counted, %d caught by the quick check of the property they break "
+                "(%d more are kept for the record but lie outside a property's quantifier or outside what the technique can express; see their meta.json).\n\n"
+                "| seeded change | breaks | needs, to manifest | check: outcome |\n|---|---|---|---|\n"
+                % (len(counted), len(primary), len([s for s in results if outside(s)])))
         for sid in sorted(results):
             r = results[sid]
             if "error" in r:
@@ -67,6 +80,8 @@ def main():
                 continue
             outs = "; ".join("%s: %s (%d violations, %ss)" % (p, "CAUGHT" if x["exit"] == 1 else ("undecided" if x["exit"] == 2 else "missed"),
                                                               x["violations"], x["wall_s"]) for p, x in r["runs"].items())
+            if outside(sid):
+                outs = "NOT COUNTED (" + outside(sid)[:120] + "...) " + outs
             f.write("| %s | %s | %s | %s |\n" % (sid, r["property"], r["needs"].replace("|", "/").replace("\n", " ")[:160], outs))
     return 0
 
